@@ -3963,6 +3963,7 @@ int EGLPNUM_TYPENAME_ILLlib_readbasis (
 			}
 			else
 			{
+				ILL_IFFREE(bname);				/* a repeated NAME line replaces the name */
 				ILL_UTIL_STR (bname, state.field);
 				QSlog("Basis Name: %s", bname);
 				if (strcmp (bname, qslp->probname))
